@@ -28,6 +28,34 @@ CHECKS = {
         "dt recomputed from howto 06 in vlib/stockgen.py; tolerance 1e-9 x magnitude; grids <= 14 items, <= 2 extra dims.",
         "DESIGN.md C03",
     ),
+    "C08": (
+        "exploration",
+        "differential testing of Hypothesis-generated lifetime models against closed-form survival functions + exhaustive check of the 10 quadrature tables",
+        "Survival and outflow tables of generated models (5 distributions, scalar / per-label / per-cohort parameters in any dim "
+        "order, inflow_at, 1-10 quadrature points, all grid kinds) are checked for the structural invariants and entry by entry "
+        "against closed forms written with math.erfc/exp/log and Gauss-Lobatto rules derived from Legendre polynomials; the ten "
+        "tabulated rules are verified exhaustively.",
+        "Trusts math.erfc/exp/log and numpy.polynomial.legendre; tolerance 1e-9 (tables 1e-13); parameters inside the models' ranges.",
+        "DESIGN.md C08",
+    ),
+    "C16": (
+        "exploration",
+        "metamorphic testing (superposition, impulse basis, truncation, label slicing, calendar shift) over Hypothesis-generated DSM configurations",
+        "For each generated configuration all unit impulses, all truncation points and all label slices are executed (exhaustive "
+        "per configuration) together with random linear combinations and calendar shifts; stock, inflow, outflow and both cohort "
+        "tables of related runs must satisfy the linearity / causality / independence relations.",
+        "No reference model; tolerance scales with cond_inf(sf); ill-conditioned stock-driven cases discarded and counted.",
+        "DESIGN.md C16",
+    ),
+    "C17": (
+        "exploration",
+        "model-based history generation: every compute() compared with a freshly built object (differential)",
+        "Generated histories of set-driver / set_prms / compute / read-table steps on every stock class, and scenario loops on an "
+        "MFASystem built from definitions, are compared after every compute() with a freshly constructed object holding the same "
+        "inputs; a second compute() must change nothing.",
+        "Fresh object and recomputed object share the code path, so equality is expected to 1e-12; parameters changed only through set_prms.",
+        "DESIGN.md C17",
+    ),
     "C09": (
         "exploration",
         "Hypothesis-generated DSM configurations checked against cohort-table invariants",
